@@ -48,7 +48,9 @@ class SqliteImpl(SqlImpl):
         elif val_type == Datetime() and cast.target_type == Date():
             return sqa.type_coerce(sqa.func.date(compiled_val), sqa.Date())
         elif val_type == Date() and cast.target_type == Datetime():
-            return sqa.type_coerce(sqa.func.datetime(compiled_val), sqa.DateTime())
+            # SQLite compares datetimes as text: use the same format as SQLAlchemy does for
+            # datetime columns and literals (with microseconds)
+            return sqa.type_coerce(sqa.func.datetime(compiled_val).concat(".000000"), sqa.DateTime())
 
         elif val_type.is_float() and cast.target_type == String():
             return sqa.case(
